@@ -113,6 +113,9 @@ def _prog_decode(a):
     passes = []
     for _ in range(np):
         maxloop, nr = a[i], a[i + 1]; i += 2
+        pcons = []
+        if maxloop & 0x400:             # the pass has a pass constraint: length, bytes
+            pl = a[i]; pcons = a[i + 1:i + 1 + pl]; i += 1 + pl
         rules = []
         for _ in range(nr):
             ln = a[i]; i += 1
@@ -122,15 +125,18 @@ def _prog_decode(a):
             al = a[i]; i += 1
             act = a[i:i + al]; i += al
             rules.append([match, cons, act])
-        passes.append([maxloop, rules])
+        passes.append([maxloop, rules, pcons])
     return [nsub, nuser, ij, rtl, passes, flags, just, nlb]
 
 
 def _prog_encode(pr):
     nsub, nuser, ij, rtl, passes, flags, just, nlb = pr
     a = [len(passes), min(nsub, len(passes)), nuser, ij, rtl, flags, len(just) // 4] + list(just) + [min(nlb, nsub, len(passes))]
-    for maxloop, rules in passes:
+    for maxloop, rules, pcons in passes:
+        maxloop = (maxloop & ~0x400) | (0x400 if pcons else 0)
         a += [maxloop, len(rules)]
+        if pcons:
+            a += [len(pcons)] + list(pcons)
         for match, cons, act in rules:
             a += [len(match)] + list(match) + [len(cons)] + list(cons) + [len(act)] + list(act)
     return a
@@ -182,6 +188,10 @@ def shrink_programs(plan, fails, t_end):
                     npr[0] -= 1
                 if not attempt(npr):
                     pi += 1
+            for pi in range(len(pr[4])):                             # drop pass constraints and pre-contexts
+                if pr[4][pi][2] and time.time() < t_end:
+                    npr = copy.deepcopy(pr); npr[4][pi][2] = []
+                    attempt(npr)
             for pi in range(len(pr[4])):                             # drop rules
                 ri = 0
                 while ri < len(pr[4][pi][1]) and time.time() < t_end:
